@@ -2,23 +2,26 @@ import LeptosModel.Proofs.Async
 /-!
 # C10 — async derived values settle on the latest inputs
 
-All theorems are about `run c es` for an ARBITRARY configuration `c` (any number of sources, with or
-without initial value, any kind of subscriber effect) and an ARBITRARY event list `es`: every
-interleaving of source writes, refetches, manual writes, fetch completions, awaiter attachments and
-polls of any woken task in any order (single-threaded executor).  They follow from the invariant
-`Inv` (Proofs/Async.lean, `Inv.run`).
+All theorems are about `run c es` for an ARBITRARY configuration `c` (any number of sources, read
+directly or through a memo, with or without initial value, any kind of subscriber effect) and an
+ARBITRARY event list `es`: every interleaving of source writes, refetches, manual writes, fetch
+completions, awaiter attachments and polls of any woken task in any order (single-threaded executor).
+They follow from the invariant `Inv` (Proofs/Async.lean, `Inv.run`).
 
 *settled* = every started fetch has completed (or was dropped) and no task is woken.
 
-Finding F-C10-1 (confirmed on the real code, corpus/C10/stolen.ops): `C10_settles_on_latest_full` is
-FALSE.  A dependent that has the derived among its sources and is check-notified through another
-source (here: an effect that also reads a memo of the same signal) calls
-`ArcAsyncDerivedInner::update_if_necessary` on the derived during its own check phase; that call
-consumes the derived's `Dirty` state (`state = Clean; return true`).  If the dependent's task is polled
-before the derived's task, the derived's task finds nothing to do and never refetches: the derived keeps
-the result for the OLD inputs forever.  `C10_settles_on_latest_partial` holds whenever that did not
-happen in the history (`stolen = false`, decidable); `C10_settles_on_latest` shows it cannot happen
-when no dependent reads a memo.
+The model is the code AFTER two repairs (hooks/fix-c10-1.patch, fix-c10-2.patch); with them
+`C10_settles_on_latest` holds at full strength.  The code before each repair is kept as `runOld1` /
+`runOld2` (Model/Async.lean, validated against the unrepaired code by the same correspondence harness)
+with the regression witnesses at the end of this file:
+
+* F-C10-1 (`C10_dirty_stolen_witness`): a dependent that had the derived among its sources and was
+  check-notified through another source called `update_if_necessary` on the derived during its own
+  check phase, which consumed the derived's `Dirty` state; polled before the derived's task, it left the
+  derived on the result for the OLD inputs for good.
+* F-C10-2 (`C10_stale_initial_witness`): a derived whose fetcher reads a MEMO reused the future created
+  in its constructor although the memo had changed before the task's first poll (`already_dirty` only
+  sees signals).
 -/
 namespace Leptos.Async
 
@@ -52,9 +55,32 @@ theorem applyResult_hist (s : State) : SameHist s (applyResult s) := by
   simp only [applyResult, SameHist]
   split <;> simp
 
-theorem fetchState_hist (s : State) : SameHist s (fetchState s) := by
-  simp only [fetchState, startFetch, dUpdateOwn, SameHist]
+theorem smUpdate_hist (s : State) : SameHist s (smUpdate s).1 := by
+  simp only [smUpdate, SameHist]
+  split <;> simp
+
+theorem dNeedsRerun_hist (s : State) : SameHist s (dNeedsRerun s).1 := by
+  simp only [dNeedsRerun]
+  split
+  · exact ⟨rfl, rfl, rfl, id⟩
+  · exact smUpdate_hist s
+
+theorem dropInitial_hist (s : State) : SameHist s (dropInitial s) := by
+  simp only [dropInitial, SameHist]
+  split <;> simp
+
+theorem startFetch_hist (s : State) : SameHist s (startFetch s) := by
+  simp only [startFetch, smUpdate, SameHist]
   (repeat' split) <;> simp
+
+theorem chk_hist (s : State) : SameHist s (chk s).1 :=
+  SameHist.trans (b := { s with reg := true, chan := false }) ⟨rfl, rfl, rfl, id⟩ (dNeedsRerun_hist _)
+
+theorem fetchState_hist (s : State) : SameHist s (fetchState s) := by
+  simp only [fetchState]
+  split
+  · exact ((chk_hist s).trans (dropInitial_hist _)).trans (startFetch_hist _)
+  · exact (chk_hist s).trans (startFetch_hist _)
 
 theorem dIter_hist (s : State) : SameHist s (dIter s).1 := by
   rw [dIter_def]
@@ -64,7 +90,7 @@ theorem dIter_hist (s : State) : SameHist s (dIter s).1 := by
     · split
       · exact (fetchState_hist s).trans (applyResult_hist _)
       · exact fetchState_hist s
-    · exact ⟨rfl, rfl, rfl, id⟩
+    · exact chk_hist s
 
 theorem dLoop_hist (n : Nat) (s : State) : SameHist s (dLoop n s) := by
   induction n generalizing s with
@@ -132,6 +158,10 @@ theorem dMarkDirty_hist (s : State) : SameHist s (dMarkDirty s) := by
   simp only [dMarkDirty, dNotify, SameHist]
   (repeat' split) <;> simp
 
+theorem smMarkDirty_hist (s : State) : SameHist s (smMarkDirty s) := by
+  simp only [smMarkDirty, dMarkCheck, dNotify, SameHist]
+  (repeat' split) <;> simp
+
 theorem mMarkDirty_hist (s : State) : SameHist s (mMarkDirty s) := by
   simp only [mMarkDirty, eMarkCheck, eNotify, SameHist]
   (repeat' split) <;> simp
@@ -148,10 +178,18 @@ theorem step_hist (s : State) (e : Event) :
   | set i v =>
     simp only [step, setSrc]
     split
-    · split
-      · have h := (dMarkDirty_hist { s with src := setAt s.src i v }).trans (mMarkDirty_hist _)
+    · have fin : ∀ u : State, SameHist { s with src := setAt s.src i v } u →
+          SameHist { s with src := setAt s.src i v } (if u.mRan = true then mMarkDirty u else u) := by
+        intro u hu
+        split
+        · exact hu.trans (mMarkDirty_hist _)
+        · exact hu
+      by_cases hv : s.viaMemo = true
+      · rw [if_pos hv]
+        have h := fin _ (smMarkDirty_hist { s with src := setAt s.src i v })
         exact ⟨h.1, h.2.1, h.2.2.1, fun hh => .inl (h.2.2.2 hh)⟩
-      · have h := dMarkDirty_hist { s with src := setAt s.src i v }
+      · rw [if_neg hv]
+        have h := fin _ (dMarkDirty_hist { s with src := setAt s.src i v })
         exact ⟨h.1, h.2.1, h.2.2.1, fun hh => .inl (h.2.2.2 hh)⟩
     · exact ⟨rfl, rfl, rfl, .inl⟩
   | refetch =>
@@ -209,18 +247,18 @@ theorem run_manualLive (c : Cfg) (es : List Event) (h : hasManual es = false) :
     · simp [init] at h'
     · simp [h] at h'
 
-theorem run_eff (c : Cfg) (es : List Event) : hasMemo (run c es).eff = false → (run c es).stolen = false :=
+theorem run_stolen (c : Cfg) (es : List Event) : (run c es).stolen = false :=
   (Inv.run c es).ec.e6
 
 /-! ## settled points -/
 
 /-- at a settled point the derived's task sleeps at `rx.next()` with nothing pending -/
 theorem settled_waiting {s : State} (h : Inv s) (hs : settled s = true) :
-    s.pc = .waiting ∧ s.loading = false ∧ s.dstate = .clean ∧ readyList s = [] := by
+    s.pc = .waiting ∧ s.loading = false ∧ s.dstate = .clean ∧ readyList s = [] ∧ inputsNow s = s.src := by
   simp only [settled, Bool.and_eq_true, decide_eq_true_eq, List.isEmpty_iff] at hs
   obtain ⟨hst, hrl⟩ := hs
   obtain ⟨hd, he, ha⟩ := readyList_nil hrl
-  obtain ⟨⟨r1, r2, r7, m1, aw⟩, ⟨r3, r4, r5, r6, fresh⟩, _, _⟩ := h
+  obtain ⟨⟨r1, r2, r7, m1, aw, s1, s2⟩, ⟨r3, r4, r5, r6, fresh⟩, _, _⟩ := h
   have hpc : s.pc = .waiting := by
     cases hp : s.pc
     · have := (r3 hp).1; simp [hd] at this
@@ -231,11 +269,19 @@ theorem settled_waiting {s : State} (h : Inv s) (hs : settled s = true) :
       · have := h3 h1; simp [hd] at this
   obtain ⟨hl, hw⟩ := r5 hpc
   obtain ⟨_, hch⟩ := hw hd
-  refine ⟨hpc, hl, ?_, hrl⟩
-  cases hds : s.dstate
-  · rfl
-  · have := r2 hds; simp [hch] at this
-  · exact absurd hds r1
+  refine ⟨hpc, hl, ?_, hrl, ?_⟩
+  · cases hds : s.dstate
+    · rfl
+    · have := r2 hds; simp [hch] at this
+    · exact absurd hds r1
+  · -- the source memo, if used, is clean (else the channel flag would be set), so it caches the sources
+    unfold inputsNow
+    split
+    · rename_i hv
+      cases hsd : s.smDirty
+      · exact s1 hv hsd
+      · have := s2 hsd; simp [hch] at this
+    · rfl
 
 /-- The loading indication is off at every settled point — unconditionally. -/
 theorem C10_settles_loading_off (c : Cfg) (es : List Event) (hs : settled (run c es) = true) :
@@ -249,63 +295,30 @@ def C10_settles_on_latest_full : Prop :=
   ∀ (c : Cfg) (es : List Event), settled (run c es) = true →
     (run c es).loading = false ∧ (run c es).value = expected (run c es)
 
-/-- the strongest true form: the full conclusion at every settled point of every history in which no
-dependent consumed the derived's `Dirty` state (`stolen`, a decidable function of the history) -/
-theorem C10_settles_on_latest_partial (c : Cfg) (es : List Event)
-    (hs : settled (run c es) = true) (hst : (run c es).stolen = false) :
-    (run c es).loading = false ∧ (run c es).value = expected (run c es) := by
+/-- The full statement holds (of the repaired code): every configuration — sources read directly or
+through a memo, any subscriber effect, with or without a memo of its own — every history, every
+interleaving and polling order. -/
+theorem C10_settles_on_latest : C10_settles_on_latest_full := by
+  intro c es hs
   have h := Inv.run c es
-  obtain ⟨hpc, hl, hcl, _⟩ := settled_waiting h hs
+  obtain ⟨hpc, hl, hcl, _, hin⟩ := settled_waiting h hs
   refine ⟨hl, ?_⟩
   unfold expected
   cases hm : (run c es).manualLive
-  · simpa using (h.dr.fresh hst hcl).1 hpc hm
+  · have := (h.dr.fresh (run_stolen c es) hcl).1 hpc hm
+    rw [hin] at this
+    simpa using this
   · simpa using h.dc.m1 hm
-
-/-- No memo-reading dependent (no subscriber effect, or one that reads only the derived): the full
-statement holds — for every history, interleaving and polling order. -/
-theorem C10_settles_on_latest (c : Cfg) (es : List Event) (hm : hasMemo c.eff = false)
-    (hs : settled (run c es) = true) :
-    (run c es).loading = false ∧ (run c es).value = expected (run c es) := by
-  apply C10_settles_on_latest_partial c es hs
-  apply run_eff
-  rw [run_effKind]; exact hm
 
 /-- In terms of the history alone: without manual writes the settled value is the fetcher applied to the
 latest source values (the sources as the `set` events of the history leave them). -/
-theorem C10_settles_on_latest_history (c : Cfg) (es : List Event) (hm : hasMemo c.eff = false)
+theorem C10_settles_on_latest_history (c : Cfg) (es : List Event)
     (hman : hasManual es = false) (hs : settled (run c es) = true) :
     (run c es).loading = false ∧ (run c es).value = some (fetchFn (latestSrc c es)) := by
-  obtain ⟨h1, h2⟩ := C10_settles_on_latest c es hm hs
+  obtain ⟨h1, h2⟩ := C10_settles_on_latest c es hs
   refine ⟨h1, ?_⟩
   rw [h2, expected, run_manualLive c es hman, run_src]
   rfl
-
-/-! ## F-C10-1: the refutation witness -/
-
-/-- one source (0), an effect reading the derived and then a memo of the same source -/
-def c10Cfg : Cfg := { srcs := [0], init := none, eff := .dm }
-
-/-- first fetch loads (polls: derived, effect; `complete 0`; derived, effect), then `s := 1`
-and the EFFECT's task is polled before the derived's task -/
-def c10Events : List Event :=
-  [.poll 0, .poll 0, .complete 0, .poll 0, .poll 0, .set 0 1, .poll 1, .poll 0]
-
-theorem C10_dirty_stolen_witness :
-    settled (run c10Cfg c10Events) = true ∧
-    (run c10Cfg c10Events).nf = 1 ∧                       -- no second fetch was ever started
-    (run c10Cfg c10Events).src = [1] ∧
-    (run c10Cfg c10Events).value = some (fetchFn [0]) ∧     -- the result for the OLD input
-    expected (run c10Cfg c10Events) = some (fetchFn [1]) ∧
-    (run c10Cfg c10Events).stolen = true := by decide
-
-theorem C10_settles_on_latest_full_false : ¬ C10_settles_on_latest_full := by
-  intro h
-  have w := C10_dirty_stolen_witness
-  have := (h c10Cfg c10Events w.1).2
-  rw [w.2.2.2.1, w.2.2.2.2.1] at this
-  exact absurd this (by decide)
-
 
 /-! ## awaiters -/
 
@@ -314,7 +327,7 @@ theorem C10_settles_on_latest_full_false : ¬ C10_settles_on_latest_full := by
 theorem C10_awaiters_resumed (c : Cfg) (es : List Event) (hs : settled (run c es) = true) :
     ∀ a ∈ (run c es).aws, a.done = true ∧ a.parked = false ∧ a.result ≠ none := by
   have h := Inv.run c es
-  obtain ⟨_, hl, _, hrl⟩ := settled_waiting h hs
+  obtain ⟨_, hl, _, hrl, _⟩ := settled_waiting h hs
   obtain ⟨_, _, hw⟩ := readyList_nil hrl
   intro a ha
   obtain ⟨h1, h2, h3⟩ := h.dc.aw a ha
@@ -353,11 +366,15 @@ theorem applyResult_value (s : State) :
 
 theorem fetchState_ready (s : State) (h : (fetchState s).curStatus = .ready) :
     s.curStatus = .ready ∧ (fetchState s).curInputs = s.curInputs := by
-  simp only [fetchState, startFetch, dUpdateOwn] at h ⊢
-  (repeat' split at h) <;> simp_all
+  rcases fetchState_cases s with ⟨_, _, _, _, heq⟩ | heq
+  · rw [heq] at h ⊢; exact ⟨h, rfl⟩
+  · rw [heq] at h; simp at h
 
 theorem fetchState_value (s : State) : (fetchState s).value = s.value := by
-  simp only [fetchState, startFetch, dUpdateOwn]
+  rcases fetchState_cases s with ⟨_, _, _, _, heq⟩ | heq <;> rw [heq]
+
+theorem chk_value (s : State) : (chk s).1.value = s.value := by
+  simp only [chk, dNeedsRerun, smUpdate]
   (repeat' split) <;> rfl
 
 theorem dIter_value (s : State) :
@@ -374,7 +391,7 @@ theorem dIter_value (s : State) :
         · exact .inl (h.trans (fetchState_value s))
         · exact .inr ⟨h1, by rw [← h2]; exact h⟩
       · exact .inl (fetchState_value s)
-    · exact .inl rfl
+    · exact .inl (chk_value s)
 
 theorem dIter_stop_value (s : State) (h : s.chan = false) : (dIter s).1.value = s.value := by
   rw [dIter_def, if_pos h]
@@ -461,7 +478,7 @@ theorem C10_sync_read_is_previous_or_none (s : State) (e : Event) :
   cases e with
   | set i v =>
     refine .inl ?_
-    simp only [step, setSrc, dMarkDirty, dNotify, mMarkDirty, eMarkCheck, eNotify]
+    simp only [step, setSrc, smMarkDirty, dMarkCheck, dMarkDirty, dNotify, mMarkDirty, eMarkCheck, eNotify]
     (repeat' split) <;> rfl
   | refetch =>
     refine .inl ?_
@@ -530,6 +547,101 @@ theorem C10_version_check_redundant (c : Cfg) (es : List Event) (h : (run c es).
     (run c es).fetchVersion = (run c es).version :=
   ((Inv.run c es).dr.r6 h).2.1
 
+/-! ## regression witnesses: what the code did before the repairs -/
+
+/-- one source (0), an effect reading the derived and then a memo of the same source -/
+def c10Cfg : Cfg := { srcs := [0], init := none, eff := .dm }
+
+/-- first fetch loads (polls: derived, effect; `complete 0`; derived, effect), then `s := 1`
+and the EFFECT's task is polled before the derived's task -/
+def c10Events : List Event :=
+  [.poll 0, .poll 0, .complete 0, .poll 0, .poll 0, .set 0 1, .poll 1, .poll 0]
+
+/-- F-C10-1 (repaired): the effect's check used to consume the derived's `Dirty` state: settled, no
+second fetch ever started, the value is the result for the OLD input.  Now the derived's task still
+finds `Dirty`, refetches (second fetch on input 1) and settles on the new input. -/
+theorem C10_dirty_stolen_witness :
+    settled (runOld1 c10Cfg c10Events) = true ∧
+    (runOld1 c10Cfg c10Events).nf = 1 ∧
+    (runOld1 c10Cfg c10Events).src = [1] ∧
+    (runOld1 c10Cfg c10Events).value = some (fetchFn [0]) ∧
+    expected (runOld1 c10Cfg c10Events) = some (fetchFn [1]) ∧
+    (runOld1 c10Cfg c10Events).stolen = true ∧
+    (run c10Cfg c10Events).curInputs = [1] ∧ (run c10Cfg c10Events).nf = 2 ∧
+    settled (run c10Cfg (c10Events ++ [.complete 1, .poll 0, .poll 0])) = true ∧
+    (run c10Cfg (c10Events ++ [.complete 1, .poll 0, .poll 0])).value = some (fetchFn [1]) := by decide
+
+/-- the full statement was false of the code before repair 1 -/
+theorem C10_settles_on_latest_old1_false :
+    ¬ ∀ (c : Cfg) (es : List Event), settled (runOld1 c es) = true →
+        (runOld1 c es).loading = false ∧ (runOld1 c es).value = expected (runOld1 c es) := by
+  intro h
+  have w := C10_dirty_stolen_witness
+  have := (h c10Cfg c10Events w.1).2
+  rw [w.2.2.2.1, w.2.2.2.2.1] at this
+  exact absurd this (by decide)
+
+/-- one source (1) read through a memo; it is written (3) before the derived's task is polled at all -/
+def c10MemoCfg : Cfg := { srcs := [1], viaMemo := true }
+
+def c10MemoEvents : List Event := [.set 0 3, .poll 0, .complete 0, .complete 1, .poll 0]
+
+/-- F-C10-2 (repaired): the task used to reuse the constructor's future (inputs 1) although its check had
+just found the memo changed: one fetch, settled on `fetch(1)` with the source at 3.  Now the stale
+future is dropped and a second fetch reads 3. -/
+theorem C10_stale_initial_witness :
+    settled (runOld2 c10MemoCfg c10MemoEvents) = true ∧
+    (runOld2 c10MemoCfg c10MemoEvents).nf = 1 ∧
+    (runOld2 c10MemoCfg c10MemoEvents).src = [3] ∧
+    (runOld2 c10MemoCfg c10MemoEvents).value = some (fetchFn [1]) ∧
+    expected (runOld2 c10MemoCfg c10MemoEvents) = some (fetchFn [3]) ∧
+    settled (run c10MemoCfg c10MemoEvents) = true ∧
+    (run c10MemoCfg c10MemoEvents).nf = 2 ∧
+    (run c10MemoCfg c10MemoEvents).value = some (fetchFn [3]) := by decide
+
+/-- the full statement was false of the code before repair 2 -/
+theorem C10_settles_on_latest_old2_false :
+    ¬ ∀ (c : Cfg) (es : List Event), settled (runOld2 c es) = true →
+        (runOld2 c es).loading = false ∧ (runOld2 c es).value = expected (runOld2 c es) := by
+  intro h
+  have w := C10_stale_initial_witness
+  have := (h c10MemoCfg c10MemoEvents w.1).2
+  rw [w.2.2.2.1, w.2.2.2.2.1] at this
+  exact absurd this (by decide)
+
+/-- with both repairs switched on the parameterised chain IS the model -/
+theorem runV_repaired (c : Cfg) (es : List Event) : runV true true c es = run c es := by
+  have hstep : ∀ (s : State) (e : Event), stepV true true s e = step s e := by
+    intro s e
+    cases e <;> try rfl
+    rename_i j
+    have hd : ∀ s, dIterV true s = dIter s := by
+      intro s; simp [dIterV, dIter]
+    have hdl : ∀ n s, dLoopV true n s = dLoop n s := by
+      intro n
+      induction n with
+      | zero => intro s; rfl
+      | succ n ih => intro s; simp [dLoopV, dLoop, hd, ih]
+    have hea : ∀ l s, effAnyV true l s = effAny l s := by
+      intro l
+      induction l with
+      | nil => intro s; rfl
+      | cons x rest ih => intro s; cases x <;> simp [effAnyV, effAny, ih]
+    have he : ∀ s, eIterV true s = eIter s := by
+      intro s; simp [eIterV, eIter, effUpdateV, effUpdate, hea]
+    have hel : ∀ n s, eLoopV true n s = eLoop n s := by
+      intro n
+      induction n with
+      | zero => intro s; rfl
+      | succ n ih => intro s; simp [eLoopV, eLoop, he, ih]
+    simp only [stepV, step, pollNthV, pollNth, pollTask, pollE, pollDV, pollD, hdl, hel]
+    split <;> simp_all
+  unfold runV run
+  generalize init c = s
+  induction es generalizing s with
+  | nil => rfl
+  | cons e es ih => simp [List.foldl_cons, hstep, ih]
+
 /-! ## non-vacuity: concrete histories that satisfy the hypotheses (kernel-evaluated) -/
 
 /-- two sources; two overlapping source writes while the first fetch is in flight; the first (now stale)
@@ -546,8 +658,8 @@ def exEvents : List Event :=
    .poll 0, .poll 0]          -- effect; awaiter resumes
 
 example :
-    hasMemo exCfg.eff = false ∧ hasManual exEvents = false ∧
-    settled (run exCfg exEvents) = true ∧ (run exCfg exEvents).stolen = false ∧
+    hasManual exEvents = false ∧
+    settled (run exCfg exEvents) = true ∧
     (run exCfg exEvents).nf = 2 ∧ latestSrc exCfg exEvents = [3, 4] ∧
     (run exCfg exEvents).value = some (fetchFn [3, 4]) ∧ (run exCfg exEvents).loading = false ∧
     (run exCfg exEvents).aws.map (·.result) = [some (fetchFn [3, 4])] ∧
@@ -562,12 +674,10 @@ example :
     (run exCfg (exEvents.take 8)).pc = .fetching ∧
     (run exCfg (exEvents.take 6)).value = none := by decide
 
-/-- a memo-reading effect polled AFTER the derived's task: nothing is stolen, the partial theorem applies -/
+/-- a memo-reading effect polled AFTER the derived's task -/
 example :
     settled (run c10Cfg [.poll 0, .poll 0, .complete 0, .poll 0, .poll 0, .set 0 1, .poll 0, .poll 0,
       .complete 1, .poll 0, .poll 0]) = true ∧
-    (run c10Cfg [.poll 0, .poll 0, .complete 0, .poll 0, .poll 0, .set 0 1, .poll 0, .poll 0,
-      .complete 1, .poll 0, .poll 0]).stolen = false ∧
     (run c10Cfg [.poll 0, .poll 0, .complete 0, .poll 0, .poll 0, .set 0 1, .poll 0, .poll 0,
       .complete 1, .poll 0, .poll 0]).value = some (fetchFn [1]) := by decide
 
@@ -586,4 +696,3 @@ example :
     settled (run {} [.set 0 5, .poll 0, .complete 1, .poll 0]) = true ∧
     (run {} [.set 0 5, .poll 0, .complete 1, .poll 0]).value = some (fetchFn [5]) := by decide
 
-end Leptos.Async
